@@ -1,6 +1,6 @@
 """C18 (lattice family; see latfam.py)."""
-from . import latfam
+from . import latfam, util
 
-globals().update(latfam.module('C18', ['C18_empty_extent'],
+globals().update(latfam.module('C18', util.theorems('C18'),
     'contexts as C03 with intents <=9 (quick) / 11 (thorough); observation = list(attributes()) and minimal() of every concept; non-trivial = a concept with >=2 generating sets',
-    extra_targets=['Tie/Matrices.vo'], partial='powerset filter decided by the correspondence'))
+    extra_targets=['Tie/Matrices.vo'], partial=''))
